@@ -4,6 +4,7 @@ package main
 // stores and writes the trace: every op echoed as `op …` followed by what the implementation did.
 
 import (
+	"sync/atomic"
 	"berty.tech/go-orbit-db/address"
 	"context"
 	"encoding/hex"
@@ -120,6 +121,7 @@ func (w *World) RunScript(lines []string) (err error) {
 			w.net.coreMode = a["ps"] == "coreapi"
 			w.net.polls, w.net.hidden = nil, nil
 			w.net.mu.Unlock()
+			atomic.StoreInt32(&w.net.openSubs, 0)
 			w.acSimple = a["ac"] == "simple"
 			w.acWrite = write
 			if a["unreach"] == "fail" {
